@@ -974,10 +974,10 @@ class DetSession:
         f = self.fobj
         ext = sorted((n - self.base, o, l) for n, (o, l) in f._prefetch_extents.items())
         bufs = sorted((o, len(d)) for o, d in f._prefetch_data.items())
-        return "E[%s] B[%s] d%d p%d pos%d x%d" % (
+        return "E[%s] B[%s] d%d p%d pos%d x%d fp%d rb%d" % (
             ",".join("%d:%d:%d" % e for e in ext), ",".join("%d:%d" % b for b in bufs),
             1 if f._prefetch_done else 0, 1 if f._prefetching else 0, f._realpos,
-            0 if f._saved_exception is None else 1)
+            0 if f._saved_exception is None else 1, f._pos, len(f._rbuffer))
 
     def run_program(self, fobj, ops, rng, bias="random", max_steps=200000):
         """ops: list of ("seek", off) | ("read", n|None) | ("readv", [(o,l)…], cap) | ("prefetch", size, cap).
@@ -986,17 +986,27 @@ class DetSession:
         self.fobj = fobj
         self.base = self.client.request_number
         results = []
+        readv_results = []
         sess = self
         # emit ops from inside the real calls (readv seeks and reads by itself)
         cls = type(fobj)
 
+        rv = {"chunks": None, "i": 0}  # inside readv: the model is told "readat off len" per block, whatever the
+        #                                 real code does (it must seek to every block's offset)
+
         def w_seek(off, whence=0):
-            sess.trace.append("a op seek %d" % off)
+            if rv["chunks"] is None:
+                sess.trace.append("a op seek %d" % off)
             return cls.seek(fobj, off, whence)
 
         def w_read(size=None):
-            sess.trace.append("a op read %s" % ("none" if size is None else size))
-            pos = fobj._realpos
+            if rv["chunks"] is not None:
+                off, ln = rv["chunks"][rv["i"]]
+                rv["i"] += 1
+                sess.trace.append("a op readat %d %d" % (off, ln))
+            else:
+                sess.trace.append("a op read %s" % ("none" if size is None else size))
+            pos = fobj._pos
             try:
                 r = cls.read(fobj, size)
             except _Abort:
@@ -1029,10 +1039,17 @@ class DetSession:
                             fobj.seek(op[1])
                         elif op[0] == "read":
                             fobj.read(op[1])
-                        elif op[0] == "readv":
+                        elif op[0] in ("readv", "readv_rp"):
+                            chunks = list(op[1]) if op[0] == "readv" else \
+                                [(fobj._realpos + d, ln) for d, ln in op[1]]  # blocks at the end of the read-ahead
                             sess.trace.append("a op readv %s %s" % (
-                                capstr(op[2]), ",".join("%d:%d" % c for c in op[1]) or "-"))
-                            list(cls.readv(fobj, op[1], op[2]))
+                                capstr(op[2]), ",".join("%d:%d" % c for c in chunks) or "-"))
+                            rv["chunks"], rv["i"] = chunks, 0
+                            try:
+                                blocks = list(cls.readv(fobj, chunks, op[2]))
+                                readv_results.append((chunks, blocks))
+                            finally:
+                                rv["chunks"] = None
                         elif op[0] == "prefetch":
                             sess.trace.append("a op prefetch %d %s" % (op[1], capstr(op[2])))
                             cls.prefetch(fobj, op[1], op[2])
@@ -1109,7 +1126,7 @@ class DetSession:
                     self._resume(self.tasks[int(pick[1:])])
         finally:
             self.tracing = False
-        return {"results": results, "hang": hang, "exc": rd.exc, "stats": stats,
+        return {"results": results, "readv": readv_results, "hang": hang, "exc": rd.exc, "stats": stats,
                 "thread_exc": [t.exc for t in self.tasks if t.exc is not None]}
 
     def _choose(self, en, rng, bias):
